@@ -232,6 +232,27 @@ static PatternResult explore(std::string const& pattern, std::vector<time_t> con
         break;
       }
     }
+  // two timestamps inside the same second, every ordered pair of fractions (also stepping backwards within the second, also
+  // a fraction with fewer significant digits after one with more): the fraction of the first must leave no trace
+  for (size_t i = 0; i < instants.size() && !res.violated; ++i)
+    for (size_t f1 = 0; f1 < 8 && !res.violated; ++f1)
+      for (size_t f2 = 0; f2 < 8; ++f2)
+      {
+        tf._strftime_part_1 = nodes[0].snap.p1;
+        tf._strftime_part_2 = nodes[0].snap.p2;
+        int64_t const base = static_cast<int64_t>(instants[i]) * 1000000000ll;
+        (void)tf.format_timestamp(std::chrono::nanoseconds{base + FRACS[f1]});
+        std::string_view got = tf.format_timestamp(std::chrono::nanoseconds{base + FRACS[f2]});
+        res.transitions += 2;
+        if (got != W(i, f2))
+        {
+          res.violated = true;
+          res.v_seq = std::to_string(instants[i]) + "(frac=" + std::to_string(FRACS[f1]) + ") " + std::to_string(instants[i]) + " frac=" + std::to_string(FRACS[f2]);
+          res.v_got = std::string(got);
+          res.v_want = W(i, f2);
+          break;
+        }
+      }
   return res;
 }
 
@@ -261,6 +282,7 @@ int main(int argc, char** argv)
     std::string seq = a.get("--seq", "");
     TimestampFormatter tf{pat, g_gmt ? Timezone::GmtTime : Timezone::LocalTime};
     std::vector<time_t> ts;
+    std::vector<uint32_t> fr; // per instant: "T(frac=N)"
     uint32_t frac = 0;
     size_t p = 0;
     while (p < seq.size())
@@ -271,12 +293,16 @@ int main(int argc, char** argv)
       if (tok.rfind("frac=", 0) == 0)
         frac = static_cast<uint32_t>(strtoul(tok.c_str() + 5, nullptr, 10));
       else if (!tok.empty())
+      {
         ts.push_back(static_cast<time_t>(strtoll(tok.c_str(), nullptr, 10)));
+        size_t const q = tok.find("(frac=");
+        fr.push_back(q == std::string::npos ? 0u : static_cast<uint32_t>(strtoul(tok.c_str() + q + 6, nullptr, 10)));
+      }
       p = e + 1;
     }
     for (size_t i = 0; i < ts.size(); ++i)
     {
-      uint32_t f = (i + 1 == ts.size()) ? frac : 0;
+      uint32_t f = (i + 1 == ts.size()) ? frac : fr[i];
       std::string got{tf.format_timestamp(std::chrono::nanoseconds{static_cast<int64_t>(ts[i]) * 1000000000ll + f})};
       std::string want = oracle(pat, ts[i], f);
       if (i + 1 == ts.size() && got != want)
